@@ -164,6 +164,14 @@ Proof.
   exact (over_all_chains (routes_ok chain_gen) all_routes_ok_gen order en Hv).
 Qed.
 
+(* generic: for EVERY chain table, if the decider holds on the enumeration then every valid chain routes *)
+Theorem all_routes_ok_sound : forall t, all_routes_ok t = true ->
+  forall order en, valid_chain order en -> routes t order en.
+Proof.
+  intros t H order en Hv. apply routes_ok_sound.
+  exact (over_all_chains (routes_ok t) H order en Hv).
+Qed.
+
 (* ------------------------------------------------------------------ what [Ok] means, for every table *)
 Lemma first_dummy_ref_none : forall slots refs, first_dummy_ref slots refs = None ->
   forall s, In s refs -> exists v, lookup s slots = Some v /\ value_is_dummy v = false.
@@ -264,6 +272,27 @@ Proof.
   intros t u H m order en Hm Hv. unfold all_sufficient_ok in H.
   rewrite forallb_forall in H. specialize (H m Hm).
   exact (over_all_chains (sufficient_ok t u m) H order en Hv).
+Qed.
+
+(* generic: for EVERY pair of tables the sufficiency decider implies the two Prop-level statements *)
+Theorem all_sufficient_ok_meaning : forall t u, all_sufficient_ok t u = true ->
+  forall m order en, In m (u_methods u) -> valid_chain order en ->
+  ((en = ByMatrix \/ forall k, In k (declared u m) -> In k order) -> run_method t u m order en = Ok) /\
+  (en <> ByMatrix -> (exists k, In k (declared u m) /\ ~ In k order) ->
+     exists msg, run_method t u m order en = Missed msg).
+Proof.
+  intros t u Hall m order en Hm Hv.
+  pose proof (all_sufficient_ok_sound t u Hall m order en Hm Hv) as H. unfold sufficient_ok in H. split.
+  - intro Hsup. destruct en.
+    + destruct Hsup as [E|Hs]; [discriminate|]. apply kinds_incl_iff in Hs. rewrite Hs in H. apply outcome_eqb_eq; exact H.
+    + destruct Hsup as [E|Hs]; [discriminate|]. apply kinds_incl_iff in Hs. rewrite Hs in H. apply outcome_eqb_eq; exact H.
+    + apply outcome_eqb_eq; exact H.
+  - intros Hne [k [Hd Hn]].
+    assert (Hf : kinds_incl (declared u m) order = false).
+    { destruct (kinds_incl (declared u m) order) eqn:E; [|reflexivity].
+      exfalso. apply Hn. eapply kinds_incl_iff; eauto. }
+    destruct en; try (exfalso; apply Hne; reflexivity); rewrite Hf in H;
+      destruct (run_method t u m order _) eqn:Eo; simpl in H; try discriminate; eauto.
 Qed.
 
 Lemma sufficient_at : forall m order en, In m (u_methods uses_gen) -> valid_chain order en ->
